@@ -147,7 +147,7 @@ size_t g_off1, g_off2;
 
 void smpi_cleanup_comm_after_copy(struct CommImpl* comm, void* buff)
     __CPROVER_requires(comm == &g_comm && vf_exc == 0 && (!g_comm.__b_ActivityImpl_T_CommImpl.__b_ActivityImpl.detached_ || __CPROVER_is_freeable(buff)))
-    __CPROVER_assigns(g_comm.src_buff_)
+    __CPROVER_assigns(VF_PT(g_comm.src_buff_)) /* pointer target: see HOWTO (dfcc pointer havoc) */
     __CPROVER_frees(buff)
     __CPROVER_ensures(vf_exc == 0)
     __CPROVER_ensures(g_comm.__b_ActivityImpl_T_CommImpl.__b_ActivityImpl.detached_
